@@ -1,5 +1,534 @@
+//! C01 — tolerance-controlled accuracy of every returned sample.
+
+use super::common::*;
 use crate::ctx::{Ctx, Meta};
+use crate::gbs;
+use crate::probe::*;
+use crate::problems::*;
 use crate::report::Report;
+use crate::rng::Rng;
+use crate::util::{par_for, slope};
+use ivp::prelude::*;
+use serde_json::json;
+
+/// calibrated accuracy constants K_m: err <= K_m * A * naccpt * (atol + rtol |y|)
+pub fn k_method(m: Method) -> f64 {
+    match m {
+        Method::RK23 => 100.0,
+        Method::DOPRI5 => 60.0,
+        Method::DOP853 => 60.0,
+        Method::RADAU => 30.0,
+        Method::BDF => 250.0,
+        Method::RK4 => f64::INFINITY,
+    }
+}
+
+/// random smooth dissipative vector field  y' = -D y + S tanh(W y + b) + c sin(om t + ph)
+pub struct Dissipative {
+    pub n: usize,
+    pub d: Vec<f64>,
+    pub s: Vec<Vec<f64>>,
+    pub w: Vec<Vec<f64>>,
+    pub b: Vec<f64>,
+    pub c: Vec<f64>,
+    pub om: Vec<f64>,
+    pub ph: Vec<f64>,
+}
+impl Dissipative {
+    pub fn random(rng: &mut Rng, n: usize) -> Self {
+        let d: Vec<f64> = (0..n).map(|_| rng.range(0.6, 2.5)).collect();
+        let dmin = d.iter().cloned().fold(f64::INFINITY, f64::min);
+        // ||S|| ||W|| < dmin: scale random matrices so that the row sums stay below sqrt(0.5 dmin)
+        let lim = (0.5 * dmin).sqrt();
+        let mk = |rng: &mut Rng| -> Vec<Vec<f64>> {
+            (0..n)
+                .map(|_| {
+                    let r: Vec<f64> = (0..n).map(|_| rng.range(-1.0, 1.0)).collect();
+                    let s: f64 = r.iter().map(|v| v.abs()).sum::<f64>().max(1e-9);
+                    r.iter().map(|v| v * lim / s * 0.9).collect()
+                })
+                .collect()
+        };
+        Dissipative {
+            n,
+            d,
+            s: mk(rng),
+            w: mk(rng),
+            b: (0..n).map(|_| rng.range(-1.0, 1.0)).collect(),
+            c: (0..n).map(|_| rng.range(-1.0, 1.0)).collect(),
+            om: (0..n).map(|_| rng.range(0.3, 3.0)).collect(),
+            ph: (0..n).map(|_| rng.range(0.0, 6.0)).collect(),
+        }
+    }
+}
+impl Problem for Dissipative {
+    fn dim(&self) -> usize {
+        self.n
+    }
+    fn f(&self, t: f64, y: &[f64], dy: &mut [f64]) {
+        let n = self.n;
+        let mut th = vec![0.0; n];
+        for i in 0..n {
+            let mut z = self.b[i];
+            for j in 0..n {
+                z += self.w[i][j] * y[j];
+            }
+            th[i] = z.tanh();
+        }
+        for i in 0..n {
+            let mut v = -self.d[i] * y[i] + self.c[i] * (self.om[i] * t + self.ph[i]).sin();
+            for j in 0..n {
+                v += self.s[i][j] * th[j];
+            }
+            dy[i] = v;
+        }
+    }
+    fn jac_dense(&self, _t: f64, y: &[f64]) -> Option<Vec<Vec<f64>>> {
+        let n = self.n;
+        let mut sech2 = vec![0.0; n];
+        for i in 0..n {
+            let mut z = self.b[i];
+            for j in 0..n {
+                z += self.w[i][j] * y[j];
+            }
+            let t = z.tanh();
+            sech2[i] = 1.0 - t * t;
+        }
+        let mut j = vec![vec![0.0; n]; n];
+        for i in 0..n {
+            for k in 0..n {
+                let mut v = 0.0;
+                for l in 0..n {
+                    v += self.s[i][l] * sech2[l] * self.w[l][k];
+                }
+                j[i][k] = v;
+            }
+            j[i][i] -= self.d[i];
+        }
+        Some(j)
+    }
+    fn describe(&self) -> serde_json::Value {
+        json!({"family": "dissipative_random_field", "n": self.n, "D": self.d})
+    }
+}
+
+fn err_ratio(y: &[f64], ex: &[f64], rtol: &Tol, atol: &Tol, denom_extra: f64) -> f64 {
+    let mut r: f64 = 0.0;
+    for j in 0..y.len() {
+        let sc = atol.at(j) + rtol.at(j) * ex[j].abs();
+        r = r.max((y[j] - ex[j]).abs() / (sc * denom_extra));
+    }
+    r
+}
+
 pub fn run(ctx: &Ctx) -> (Report, Meta) {
-    (Report::new(&ctx.prop), Meta::new("not built yet"))
+    let meta = Meta::new(
+        "(a) closed-form problems (linear blocks with prescribed spectrum, logistic, Riccati tan/tanh, Bernoulli, rational, Prothero-Robinson; smooth time warps; well-conditioned linear mixings; dim 1..8) x 5 error-controlled methods x both directions x rtol 1e-3..1e-11 x {scalar, per-component, pure absolute rtol=0, pure relative atol=0 on solutions bounded away from 0} x {all accepted steps, t_eval}: every returned sample against the exact solution with bound K_m * A * naccpt * (atol + rtol|y|), A = amplification factor computed from the exact sensitivity; (b) tolerance ladders (9 tolerances per problem): fitted slope of log err vs log tol and one-decade regressions; (c) RK4 global order under step halving incl. steps that do not divide the span; (d) random smooth dissipative vector fields (dim 1..8) against an independent, self-certifying Gragg-Bulirsch-Stoer reference; non-trivial = run with >= 5 accepted steps and a reference available (distinct by scenario hash)",
+    )
+    .assume("closed-form solutions evaluated in f64; amplification factor from the closed-form sensitivity d u(t)/d u0, times cond(P) of the mixing")
+    .assume("K_m calibrated on the unchanged tree (>= 10x the worst ratio observed over >= 5 seeds at the thorough tier); GBS reference accepted only if the H and H/2 runs agree to 1e-12")
+    .thresholds(json!({"K_RK23": k_method(Method::RK23), "K_DOPRI5": k_method(Method::DOPRI5), "K_DOP853": k_method(Method::DOP853), "K_RADAU": k_method(Method::RADAU), "K_BDF": k_method(Method::BDF), "ladder_slope_min": 0.5, "one_decade_regression": "error x5 while the tighter run is above half its bound", "rk4_order_min": 3.6}))
+    .floor("samples_checked", 20000)
+    .floor("runs_checked", 1200)
+    .floor("ladders_checked", 40)
+    .floor("rk4_order_fits", 20)
+    .floor("random_field_runs_checked", 60)
+    .floor("runs_pure_absolute", 60)
+    .floor("runs_pure_relative", 60);
+
+    // ------------------------------------------------------------------ (a) closed form sweep
+    let n = ctx.size(3_000, 120_000);
+    let rep = par_for(n, "C01", |i, rep| {
+        let case_id = format!("closed/{}", i);
+        if !ctx.want(&case_id) {
+            return;
+        }
+        let mut rng = Rng::derive(ctx.seed, 1, i as u64);
+        let method = ADAPTIVE[i % 5];
+        let m = mname(method);
+        let dirn = rng.sign();
+        let x0 = match rng.below(4) {
+            0 => 0.0,
+            1 => rng.range(-2.0, 2.0),
+            2 => rng.sign() * rng.range(3.0, 30.0),
+            _ => 1.0,
+        };
+        let span = rng.logu(0.2, 12.0);
+        let xend = x0 + dirn * span;
+        let mode = (i / 5) % 8; // 0,1 scalar  2 vector  3 pure absolute  4 pure relative  5 scalar + t_eval  6 scalar rtol + vector atol  7 vector rtol + scalar atol
+        let (prob, amp) = if mode == 4 {
+            // solutions bounded away from zero: positive unmixed bases
+            let mut bases = Vec::new();
+            let nb = 1 + rng.below(4);
+            for _ in 0..nb {
+                bases.push(match rng.below(4) {
+                    0 => Base::Logistic { r: dirn * rng.range(0.3, 2.0), k: rng.range(1.0, 3.0), u0: rng.range(0.3, 0.8) },
+                    1 => Base::Bern { a: rng.range(0.5, 1.5), b: rng.range(0.4, 1.2), u0: rng.range(0.3, 0.7) },
+                    2 => Base::Lin1 { lam: -dirn * rng.range(0.05, 0.6), u0: rng.range(0.5, 2.0) },
+                    _ => Base::Rat { u0: rng.range(0.3, 1.0) },
+                });
+            }
+            let c = Composite::new(bases, Warp::Id, None, x0);
+            if !c.regular(xend) {
+                rep.inconclusive("pure_relative_problem_not_regular");
+                return;
+            }
+            let a = c.amplification(xend);
+            if a > 30.0 {
+                rep.inconclusive("pure_relative_problem_amplifies");
+                return;
+            }
+            // magnitude must stay well away from zero
+            let umin = (0..=16).map(|k| c.exact(x0 + (xend - x0) * k as f64 / 16.0).unwrap().iter().fold(f64::INFINITY, |mn, v| mn.min(v.abs()))).fold(f64::INFINITY, f64::min);
+            if umin < 0.02 {
+                rep.inconclusive("pure_relative_solution_near_zero");
+                return;
+            }
+            (c, a)
+        } else {
+            random_composite(&mut rng, x0, xend, 8, 30.0)
+        };
+        let nn = prob.dim();
+        let lo_tol: f64 = match method {
+            Method::RK23 => 1e-8,
+            Method::BDF => 1e-9,
+            _ => 1e-11,
+        };
+        let rt = rng.logu(lo_tol, 1e-3);
+        let at = rt * rng.logu(1e-3, 1.0);
+        let mut scn = Scn::new(method, x0, xend, prob.y0());
+        match mode {
+            2 => {
+                scn.rtol = Tol::V((0..nn).map(|_| rt * rng.range(0.5, 2.0)).collect());
+                scn.atol = Tol::V((0..nn).map(|_| at * rng.range(0.5, 2.0)).collect());
+            }
+            3 => {
+                scn.rtol = Tol::S(0.0);
+                scn.atol = Tol::S(rt);
+            }
+            6 => {
+                scn.rtol = Tol::S(rt);
+                scn.atol = Tol::V((0..nn).map(|_| at * rng.range(0.5, 2.0)).collect());
+            }
+            7 => {
+                scn.rtol = Tol::V((0..nn).map(|_| rt * rng.range(0.5, 2.0)).collect());
+                scn.atol = Tol::S(at);
+            }
+            4 => {
+                scn.rtol = Tol::S(rt);
+                scn.atol = Tol::S(0.0);
+            }
+            _ => {
+                scn.rtol = Tol::S(rt);
+                scn.atol = Tol::S(at);
+            }
+        }
+        scn.user_jac = is_implicit(method) && rng.bool();
+        scn.budget = 3_000_000;
+        if mode == 5 || rng.chance(0.15) {
+            let k = 3 + rng.below(20);
+            let mut te: Vec<f64> = (0..k).map(|_| x0 + (xend - x0) * rng.f()).collect();
+            te.push(xend);
+            te.sort_by(|a, b| a.partial_cmp(b).unwrap());
+            if dirn < 0.0 {
+                te.reverse();
+            }
+            te.dedup();
+            scn.t_eval = Some(te);
+        }
+        let res = run_solve(&prob, &scn, false, false);
+        rep.eval();
+        let mut case = scn.describe(&prob);
+        case["amplification"] = json!(amp);
+        let cls = ["scalar_tol", "scalar_tol", "vector_tol", "pure_absolute", "pure_relative", "t_eval", "scalar_rtol_vector_atol", "vector_rtol_scalar_atol"][mode];
+        let sol = match &res.out {
+            Outcome::Ok(s) => s,
+            Outcome::Budget => {
+                rep.inconclusive("evaluation_budget_exhausted");
+                return;
+            }
+            Outcome::Panic(msg) => {
+                rep.violate(&format!("C01/no_panic/{}/{}", m, cls), format!("panic: {}", msg), &case_id, case);
+                return;
+            }
+            Outcome::Err(e) => {
+                rep.violate(&format!("C01/valid_configuration_refused/{}/{}", m, cls), format!("solve_ivp returned {} for a valid configuration", e), &case_id, case);
+                return;
+            }
+        };
+        if sol.status != Status::Success {
+            rep.violate(&format!("C01/smooth_problem_not_solved/{}/{}", m, cls), format!("status {:?} on a smooth, well-conditioned problem", sol.status), &case_id, case);
+            return;
+        }
+        rep.count("runs_checked", 1);
+        if mode == 3 {
+            rep.count("runs_pure_absolute", 1);
+        }
+        if mode == 4 {
+            rep.count("runs_pure_relative", 1);
+        }
+        if sol.naccpt >= 5 {
+            rep.nontrivial(scn_hash(&scn, &prob));
+        }
+        let km = k_method(method);
+        let mut worst: f64 = 0.0;
+        for (k, &t) in sol.t.iter().enumerate() {
+            let ex = prob.exact(t).unwrap();
+            let r = err_ratio(&sol.y[k], &ex, &scn.rtol, &scn.atol, amp * sol.naccpt.max(1) as f64);
+            worst = worst.max(r);
+        }
+        rep.count("samples_checked", sol.t.len() as u64);
+        rep.worst(&format!("err_over_A_naccpt_tol_{}", m), worst);
+        rep.worst(&format!("err_over_A_naccpt_tol_{}_{}", m, cls), worst);
+        if !(worst <= km) {
+            case["worst_ratio"] = json!(worst);
+            case["naccpt"] = json!(sol.naccpt);
+            rep.violate(
+                &format!("C01/error_bound/{}/{}_dim{}", m, cls, if nn == 1 { "1" } else if nn <= 3 { "2-3" } else { "4-8" }),
+                format!("a returned sample has error {:.1} x A x naccpt x (atol + rtol|y|) (A = {:.2}, naccpt = {}), allowed {}", worst, amp, sol.naccpt, km),
+                &case_id,
+                case,
+            );
+        }
+        if i % 991 == 0 {
+            rep.sample(json!({"scenario": scn.describe(&prob), "amplification": amp, "naccpt": sol.naccpt, "worst_ratio": worst}));
+        }
+    });
+
+    // ------------------------------------------------------------------ (b) tolerance ladders
+    let nl = ctx.size(60, 1500);
+    let rep_b = par_for(nl, "C01", |i, rep| {
+        let case_id = format!("ladder/{}", i);
+        if !ctx.want(&case_id) {
+            return;
+        }
+        let mut rng = Rng::derive(ctx.seed, 101, i as u64);
+        let method = ADAPTIVE[i % 5];
+        let m = mname(method);
+        let dirn = rng.sign();
+        let x0 = rng.range(-1.0, 1.0);
+        let xend = x0 + dirn * rng.range(1.0, 8.0);
+        let (prob, amp) = random_composite(&mut rng, x0, xend, 8, 20.0);
+        let nn = prob.dim();
+        let tols: Vec<f64> = match method {
+            Method::RK23 => (0..=5).map(|k| 1e-3 * 10f64.powi(-k)).collect(),
+            Method::BDF => (0..=6).map(|k| 1e-3 * 10f64.powi(-k)).collect(),
+            _ => (0..=8).map(|k| 1e-3 * 10f64.powi(-k)).collect(),
+        };
+        let vector = rng.bool();
+        let mut errs = Vec::new();
+        let mut ratios = Vec::new();
+        let yscale = (0..=8).map(|k| prob.exact(x0 + (xend - x0) * k as f64 / 8.0).unwrap().iter().fold(0.0f64, |mx, v| mx.max(v.abs()))).fold(1e-300, f64::max);
+        for &tol in &tols {
+            let mut scn = Scn::new(method, x0, xend, prob.y0());
+            if vector {
+                scn.rtol = Tol::V(vec![tol; nn]);
+                scn.atol = Tol::V(vec![tol * 1e-2; nn]);
+            } else {
+                scn.rtol = Tol::S(tol);
+                scn.atol = Tol::S(tol * 1e-2);
+            }
+            scn.user_jac = is_implicit(method);
+            scn.budget = 5_000_000;
+            let res = run_solve(&prob, &scn, false, false);
+            rep.eval();
+            match &res.out {
+                Outcome::Ok(sol) if sol.status == Status::Success => {
+                    let mut e: f64 = 0.0;
+                    let mut r: f64 = 0.0;
+                    for (k, &t) in sol.t.iter().enumerate() {
+                        let ex = prob.exact(t).unwrap();
+                        e = e.max(sol.y[k].iter().zip(&ex).fold(0.0f64, |mx, (a, b)| mx.max((a - b).abs())));
+                        r = r.max(err_ratio(&sol.y[k], &ex, &scn.rtol, &scn.atol, amp * sol.naccpt.max(1) as f64));
+                    }
+                    errs.push(e);
+                    ratios.push(r);
+                }
+                Outcome::Panic(msg) => {
+                    rep.violate(&format!("C01/no_panic/{}/ladder", m), msg.clone(), &case_id, scn.describe(&prob));
+                    return;
+                }
+                _ => {
+                    rep.inconclusive("ladder_run_failed");
+                    return;
+                }
+            }
+        }
+        rep.count("ladders_checked", 1);
+        rep.nontrivial(crate::util::hash_str(&format!("ladder{}{}", i, ctx.seed)));
+        let case = json!({"method": m, "problem": prob.describe(), "x0": x0, "xend": xend, "tolerances": tols, "errors": errs, "ratios_to_bound": ratios, "vector_tolerances": vector});
+        // slope above the rounding floor
+        let floor = 100.0 * f64::EPSILON * yscale * (1.0 + amp);
+        // only tolerances at which the error is not already orders of magnitude below its bound take part
+        // (an easy problem solved with the minimal number of steps cannot improve further)
+        let pts: Vec<(f64, f64)> = (0..tols.len()).filter(|&k| errs[k] > floor && ratios[k] >= 0.01).map(|k| (tols[k].ln(), errs[k].ln())).collect();
+        if pts.len() >= 4 {
+            let s = slope(&pts.iter().map(|p| p.0).collect::<Vec<_>>(), &pts.iter().map(|p| p.1).collect::<Vec<_>>());
+            rep.worst(&format!("ladder_slope_deficit_{}", m), 1.0 - s);
+            if s < 0.5 {
+                rep.violate(&format!("C01/ladder_slope/{}/{}", m, if nn >= 4 { "dim4-8" } else { "dim1-3" }), format!("errors shrink like tol^{:.2} over the tolerance ladder (dimension {})", s, nn), &case_id, case.clone());
+            }
+        }
+        for k in 1..tols.len() {
+            if errs[k] > floor && errs[k] > 5.0 * errs[k - 1] && ratios[k] > 0.5 * k_method(method) {
+                rep.violate(&format!("C01/tightening_increases_error/{}/ladder", m), format!("tightening the tolerance from {:e} to {:e} increased the error from {:e} to {:e}", tols[k - 1], tols[k], errs[k - 1], errs[k]), &case_id, case.clone());
+                break;
+            }
+        }
+    });
+
+    // ------------------------------------------------------------------ (c) RK4 convergence
+    // per-case slopes are fitted on the three finest step sizes; single problems are legitimately
+    // irregular (sign changes of the error constant), so the verdict is taken per class on the median
+    let nr = ctx.size(48, 600);
+    let mut rep_c = Report::new("C01");
+    let mut by_class: std::collections::BTreeMap<String, Vec<f64>> = std::collections::BTreeMap::new();
+    for i in 0..nr {
+        let case_id = format!("rk4/{}", i);
+        if !ctx.want(&case_id) {
+            continue;
+        }
+        let rep = &mut rep_c;
+        let mut rng = Rng::derive(ctx.seed, 104, i as u64);
+        let dirn = rng.sign();
+        let x0 = rng.range(-1.0, 1.0);
+        let span = rng.range(0.8, 3.0);
+        let xend = x0 + dirn * span;
+        let (mut prob, _amp) = random_composite(&mut rng, x0, xend, 3, 8.0);
+        // always non-autonomous, so that stage times matter
+        if matches!(prob.warp, Warp::Id) {
+            prob.warp = Warp::Sin { a: rng.range(0.2, 0.5) * rng.sign(), b: rng.range(0.7, 2.0) };
+            if !prob.regular(xend) || prob.amplification(xend) > 20.0 {
+                rep.inconclusive("rk4_problem_not_regular_after_warp");
+                continue;
+            }
+        }
+        let dividing = i % 2 == 0;
+        let base = if dividing { 8.0 } else { 7.0 + rng.range(0.2, 0.8) };
+        let mut lh = Vec::new();
+        let mut le = Vec::new();
+        let with_teval = i % 3 == 0;
+        let mut y0 = prob.y0();
+        let _ = &mut y0;
+        for k in 0..5 {
+            let nst = base * 2f64.powi(k);
+            let h = dirn * span / nst;
+            let mut scn = Scn::new(Method::RK4, x0, xend, prob.y0());
+            scn.first_step = Some(h);
+            if with_teval {
+                scn.t_eval = Some(vec![x0 + 0.37 * (xend - x0), xend]);
+            }
+            let res = run_solve(&prob, &scn, false, false);
+            rep.eval();
+            if let Outcome::Ok(sol) = &res.out {
+                if sol.status == Status::Success && !sol.t.is_empty() {
+                    let mut e: f64 = 0.0;
+                    for (q, &t) in sol.t.iter().enumerate() {
+                        let ex = prob.exact(t).unwrap();
+                        e = e.max(sol.y[q].iter().zip(&ex).fold(0.0f64, |mx, (a, b)| mx.max((a - b).abs())));
+                    }
+                    if e > 1e-12 {
+                        lh.push((span / nst).ln());
+                        le.push(e.ln());
+                    }
+                }
+            } else if let Outcome::Panic(msg) = &res.out {
+                rep.violate("C01/no_panic/RK4/convergence", msg.clone(), &case_id, scn.describe(&prob));
+            }
+        }
+        if lh.len() >= 4 {
+            let k0 = lh.len() - 3;
+            let s = slope(&lh[k0..], &le[k0..]);
+            rep.count("rk4_order_fits", 1);
+            rep.nontrivial(crate::util::hash_str(&format!("rk4{}{}", i, ctx.seed)));
+            let cls = format!("{}{}", if dividing { "dividing_step" } else { "non_dividing_step" }, if with_teval { "_t_eval" } else { "" });
+            by_class.entry(cls.clone()).or_default().push(s);
+            if s < 2.5 {
+                rep.violate(&format!("C01/rk4_fourth_order/RK4/{}", cls), format!("RK4 global error scales like h^{:.2} under step refinement", s), &case_id, json!({"problem": prob.describe(), "x0": x0, "xend": xend, "log_h": lh, "log_err": le}));
+            }
+        } else {
+            rep.inconclusive("rk4_too_few_points");
+        }
+    }
+    if ctx.only.is_none() {
+        for (cls, mut v) in by_class {
+            if v.len() < 4 {
+                continue;
+            }
+            v.sort_by(|a, b| a.partial_cmp(b).unwrap());
+            let med = v[v.len() / 2];
+            rep_c.worst(&format!("rk4_median_order_deficit_{}", cls), 4.0 - med);
+            if med < 3.6 {
+                rep_c.violate(&format!("C01/rk4_fourth_order_median/RK4/{}", cls), format!("median fitted global order over {} problems is {:.2}", v.len(), med), &format!("rk4/median/{}", cls), json!({"class": cls, "slopes": v}));
+            }
+        }
+    }
+
+    // ------------------------------------------------------------------ (d) random dissipative fields vs GBS
+    let nd = ctx.size(120, 2000);
+    let rep_d = par_for(nd, "C01", |i, rep| {
+        let case_id = format!("field/{}", i);
+        if !ctx.want(&case_id) {
+            return;
+        }
+        let mut rng = Rng::derive(ctx.seed, 107, i as u64);
+        let method = ADAPTIVE[i % 5];
+        let m = mname(method);
+        let nn = 1 + rng.below(8);
+        let prob = Dissipative::random(&mut rng, nn);
+        let x0 = rng.range(-1.0, 1.0);
+        let xend = x0 + rng.range(1.0, 6.0); // forward: the dissipative direction
+        let y0: Vec<f64> = (0..nn).map(|_| rng.range(-1.5, 1.5)).collect();
+        let mut scn = Scn::new(method, x0, xend, y0.clone());
+        let rt = rng.logu(if method == Method::RK23 { 1e-7 } else { 1e-9 }, 1e-3);
+        scn.rtol = Tol::S(rt);
+        scn.atol = Tol::S(rt * rng.logu(1e-2, 1.0));
+        scn.user_jac = is_implicit(method) && rng.bool();
+        scn.budget = 3_000_000;
+        let res = run_solve(&prob, &scn, false, false);
+        rep.eval();
+        let case = scn.describe(&prob);
+        let sol = match &res.out {
+            Outcome::Ok(s) if s.status == Status::Success => s,
+            Outcome::Panic(msg) => {
+                rep.violate(&format!("C01/no_panic/{}/random_field", m), msg.clone(), &case_id, case);
+                return;
+            }
+            Outcome::Ok(s) => {
+                rep.violate(&format!("C01/smooth_problem_not_solved/{}/random_field", m), format!("status {:?} on a smooth dissipative problem", s.status), &case_id, case);
+                return;
+            }
+            _ => {
+                rep.inconclusive("field_run_failed");
+                return;
+            }
+        };
+        // reference at (a subset of) the returned times
+        let stride = (sol.t.len() / 25).max(1);
+        let idx: Vec<usize> = (1..sol.t.len()).filter(|k| k % stride == 0 || *k == sol.t.len() - 1).collect();
+        let ts: Vec<f64> = idx.iter().map(|&k| sol.t[k]).collect();
+        let f = |t: f64, y: &[f64], d: &mut [f64]| prob.f(t, y, d);
+        let Some(reference) = gbs::reference(&f, x0, &y0, &ts, 0.1, 1e-12) else {
+            rep.inconclusive("reference_integrator_not_certified");
+            return;
+        };
+        rep.count("random_field_runs_checked", 1);
+        if sol.naccpt >= 5 {
+            rep.nontrivial(scn_hash(&scn, &prob));
+        }
+        let mut worst: f64 = 0.0;
+        for (q, &k) in idx.iter().enumerate() {
+            worst = worst.max(err_ratio(&sol.y[k], &reference[q], &scn.rtol, &scn.atol, sol.naccpt.max(1) as f64));
+        }
+        rep.count("samples_checked", idx.len() as u64);
+        rep.worst(&format!("field_err_over_naccpt_tol_{}", m), worst);
+        if !(worst <= k_method(method)) {
+            rep.violate(&format!("C01/error_bound/{}/random_field", m), format!("error {:.1} x naccpt x (atol + rtol|y|) against the independent reference (allowed {})", worst, k_method(method)), &case_id, case);
+        }
+    });
+    let mut rep = rep;
+    rep.merge(rep_b);
+    rep.merge(rep_c);
+    rep.merge(rep_d);
+    (rep, meta)
 }
